@@ -29,6 +29,10 @@ class EdgeData(ElementBase):
         # what goes into blockMeshDict's edge definition
         return self.kind
 
+    def reverse(self) -> None:
+        """Called when the edge is about to be traversed from its other end (Face.invert, Operation.invert);
+        edge data that depends on direction overrides this"""
+
 
 class Line(EdgeData):
     """A 'line' edge is created by default and needs no extra parameters"""
@@ -102,9 +106,14 @@ class Angle(EdgeData):
         return self
 
     def mirror(self, normal, origin=None):  # noqa: ARG002
-        """Axis is a direction, not a point: the origin of the mirror plane must not displace it"""
+        """Axis is a direction, not a point: the origin of the mirror plane must not displace it;
+        a reflection also reverses the sense of rotation"""
         self.axis.mirror(normal, [0, 0, 0])
+        self.angle = -self.angle
         return self
+
+    def reverse(self) -> None:
+        self.angle = -self.angle
 
     @property
     def parts(self):
@@ -182,6 +191,9 @@ class Spline(OnCurve):
     def __init__(self, points: PointListType):
         curve = DiscreteCurve(points)
         super().__init__(curve, n_points=len(points), representation=self.kind)
+
+    def reverse(self) -> None:
+        self.curve.array.points = self.curve.array.points[::-1].copy()
 
     @property
     def parts(self):
